@@ -21,8 +21,11 @@ def run(res, tier, lean, prop="C01", proof_breaks=(), build_log=""):
     hists = [(i, o) for i, o in pipe.FIXED]
     n = 60 if thorough else 14
     for _ in range(n):
-        init = pipe.gen_history(r, r.randint(0, 5)) if r.random() < 0.6 else []
-        hists.append((init, pipe.gen_history(r, r.randint(4, 12))))
+        init = pipe.gen_history(r, r.randint(2, 8)) if r.random() < 0.6 else []
+        t0 = {"W": "d", "O": "d"}
+        # the generator's picture of the tree after the initial operations
+        t1 = pipe.tree_after(t0, init)
+        hists.append((init, pipe.gen_history(r, r.randint(6, 16), tree=t1)))
     lines, impl, meta = [], [], []
     for init, ops in hists:
         for recursive in (True, False):
